@@ -169,7 +169,9 @@ func semStmt(s N, ind string) string {
 	case "expr":
 		return ind + semExpr(s["e"].(N)) + "\n"
 	case "log":
-		return ind + "L(" + semExpr(s["e"].(N)) + ")\n"
+		// inline (no call frame, so nothing executes between two episodes): the value is bound
+		// first because uGO evaluates the old value of log before the arguments of append
+		return ind + "if true {\n" + ind + "  lv := " + semExpr(s["e"].(N)) + "\n" + ind + "  log = append(log, lv)\n" + ind + "}\n"
 	case "ret":
 		return ind + "return " + semExpr(s["e"].(N)) + "\n"
 	case "ret0":
@@ -338,8 +340,30 @@ type semCase struct {
 	Exp        semExp  `json:"exp"`
 }
 
+// hostCall is the Go function behind the globals cbcall (pooled Invoker) and cbcall2 (not pooled):
+// it calls its first argument with the remaining ones.
+func hostCall(pooled bool) *ugo.Function {
+	return &ugo.Function{Name: "cbcall", ValueEx: func(c ugo.Call) (ugo.Object, error) {
+		if c.Len() < 1 {
+			return nil, ugo.ErrWrongNumArguments.NewError("want>=1 got=0")
+		}
+		inv := ugo.NewInvoker(c.VM(), c.Get(0))
+		if pooled {
+			inv.Acquire()
+			defer inv.Release()
+		}
+		var args []ugo.Object
+		for i := 1; i < c.Len(); i++ {
+			args = append(args, c.Get(i))
+		}
+		return inv.Invoke(args...)
+	}}
+}
+
 func semValueObj(v N) ugo.Object {
 	switch v["t"] {
+	case "bi":
+		return hostCall(v["n"] == "cbcall")
 	case "int":
 		return ugo.Int(int64(v["v"].(float64)))
 	case "str":
@@ -361,7 +385,9 @@ func semExpected(e semExp) string {
 	g := N{}
 	if m, ok := e.Globals.(map[string]any); ok {
 		for k, v := range m {
-			g[k] = v
+			if k != "cbcall" && k != "cbcall2" {
+				g[k] = v
+			}
 		}
 	}
 	return canonS([]any{e.O, e.Log, g})
@@ -477,6 +503,8 @@ func semRun(p semProg, cf semCfg, src string) (obs string, compileErr error, pan
 	vm := ugo.NewVM(bc)
 	ret, rerr := vm.Run(g, args...)
 	if cf.Twice {
+		// a cleared VM starts the second run with an empty module cache
+		vm.Clear()
 		g = mkGlobals()
 		ret, rerr = vm.Run(g, args...)
 	}
@@ -493,7 +521,7 @@ func semRun(p semProg, cf semCfg, src string) (obs string, compileErr error, pan
 	logv := semObj(g["log"]).(N)["v"]
 	gl := N{}
 	for k, v := range g {
-		if k != "log" {
+		if k != "log" && k != "cbcall" && k != "cbcall2" {
 			gl[k] = semObj(v)
 		}
 	}
